@@ -576,7 +576,9 @@ class PeerConnection:
                         self._read_buffer = self._read_buffer[msg_header.length:]
 
                 except Exception as e:
-                    if msg_header and len(self._read_buffer) >= msg_header.length:
+                    # a length field smaller than the message header itself can
+                    # never be skipped over, nothing would be consumed
+                    if msg_header and 20 <= msg_header.length <= len(self._read_buffer):
                         self.logger.warning(
                             f"received garbage: {e}, discarding {msg_header.length} "
                             f"bytes")
